@@ -622,6 +622,14 @@ func (u *Unit) specCall(st *State, e *SExpr, env *SpecEnv, q *bool) *Val {
 		x := ev(0)
 		name := args[1].Name
 		return boolVal(tAnd(app("distinct", x.S, "0"), tEq(app(u.typeofFn(), x.S), u.d.constant("tag!"+name, SInt))))
+	case "asType": // asType(x, "T"): the value of dynamic type T held by the interface value x
+		x := ev(0)
+		t := u.resolveType(env.pkg, args[1].Name)
+		if kindOf(t) == kRef && !isIface(t) {
+			// references (pointers, maps) are stored in an interface as themselves
+			return &Val{T: t, S: x.S}
+		}
+		return u.fromScalar(st, app(u.unboxFn(sortOf(t)), x.S), t)
 	case "asString":
 		x := ev(0)
 		return &Val{T: types.Typ[types.String], S: app(u.unboxFn(SStr), x.S)}
